@@ -18,6 +18,13 @@ def volOf (r : Raw) : Vol :=
   | .ok v => v
   | .error _ => { lo := 0, hi := 0, sys := [], files := [], freeUnits := [] }
 
+/-- the volume read after an operation: bounds, system blocks and label as before -/
+def nextVol (v : Vol) (total : Nat) (files : List FileRec) (free : List Nat) : Vol :=
+  { lo := 0, hi := total, sys := v.sys, files := files, freeUnits := free, label := v.label }
+
+theorem unitAt_congr {r r' : Raw} {j : Nat} (h : r'.units[j]? = r.units[j]?) : unitAt r' j = unitAt r j := by
+  unfold unitAt; rw [h]
+
 theorem volOf_eq {r : Raw} {v : Vol} (h : Read.ProdosT.read r = .ok v) : volOf r = v := by unfold volOf; rw [h]
 
 theorem nbmOf_pos {t : Nat} (h : 6 ≤ t) : 0 < nbmOf t := by unfold nbmOf; omega
@@ -83,6 +90,107 @@ theorem close_op {d d3 : Disk} (hs : SInv d) (r3 : Raw) (buf3 : Array Nat)
   refine ⟨by rw [hraw]; exact hinv, ?_, by rw [hsrc, n.src]; exact hs.src, Or.inl ⟨hclosed, ?_⟩⟩
   · rw [htot, n.total, hraw, hsz]; exact hs.total
   · rw [hraw, hbm, htot, n.total, ← hts]; exact hbb
+
+theorem mem_find {α : Type} {p : α → Bool} {l : List α} {x : α} (h : l.find? p = some x) : x ∈ l ∧ p x = true :=
+  ⟨List.mem_of_find?_eq_some h, List.find?_some h⟩
+
+/-- what the reader calls the path of a file entry under the volume directory -/
+theorem baseRec_path_root (e : Bytes) : (baseRec e []).path = trimName e := by
+  unfold baseRec; simp
+
+theorem readFile_rec_fields (r : Raw) (total : Nat) (e pfx : Bytes) (f : FileRec) (h : Read.ProdosT.readFile r total e pfx = .ok f) :
+    f.path = (baseRec e pfx).path ∧ f.isDir = false ∧ f.locked = (baseRec e pfx).locked ∧ f.access = e.getD 30 0 ∧
+    f.ftype = e.getD 16 0 ∧ f.aux = le16 e 31 ∧ f.eof = le24 e 21 := by
+  unfold Read.ProdosT.readFile at h
+  simp only at h
+  split at h
+  · cases hu : r.unit (le16 e 0x11) "data-block" with
+    | error x => rw [hu] at h; cases h
+    | ok d =>
+      rw [hu] at h; simp only at h
+      split at h
+      · cases h
+      · injection h with h; subst h; exact ⟨rfl, rfl, rfl, rfl, rfl, rfl, rfl⟩
+  · split at h
+    · cases hu : r.unit (le16 e 0x11) "index-block" with
+      | error x => rw [hu] at h; cases h
+      | ok ib =>
+        rw [hu] at h; simp only at h
+        cases hd : readData r total (indexEntries ib 0) with
+        | error x => rw [hd] at h; cases h
+        | ok cs =>
+          rw [hd] at h; simp only at h
+          split at h
+          · cases h
+          · injection h with h; subst h; exact ⟨rfl, rfl, rfl, rfl, rfl, rfl, rfl⟩
+    · cases hu : r.unit (le16 e 0x11) "master-index-block" with
+      | error x => rw [hu] at h; cases h
+      | ok mb =>
+        rw [hu] at h; simp only at h
+        cases hm : List.mapM (treeIndex r total)
+            ((List.range 128).filterMap (fun k => if idxPtr mb k = 0 then none else some (k, idxPtr mb k))) with
+        | error x => rw [hm] at h; cases h
+        | ok parts =>
+          rw [hm] at h; simp only at h
+          split at h
+          · cases h
+          · injection h with h; subst h; exact ⟨rfl, rfl, rfl, rfl, rfl, rfl, rfl⟩
+
+theorem getD_lt_of_bytes (b : Bytes) (j : Nat) (h : ∀ x ∈ b, x < 256) : b.getD j 0 < 256 := by
+  simp only [List.getD_eq_getElem?_getD]
+  by_cases hj : j < b.length
+  · rw [List.getElem?_eq_getElem hj]; exact h _ (List.getElem_mem hj)
+  · rw [List.getElem?_eq_none (by omega)]; decide
+
+theorem entryAt_bytes (blk : Bytes) (k : Nat) (h : ∀ x ∈ blk, x < 256) : ∀ x ∈ entryAt blk k 39, x < 256 := by
+  intro x hx
+  unfold entryAt slice at hx
+  exact h x (List.mem_of_mem_drop (List.mem_of_mem_take hx))
+
+/-- in a volume without sub-directories no slot matches a search for a sub-directory entry -/
+theorem no_dir_hit {r : Raw} {ch : List Nat} (hroot : Root r ch) (nm : Bytes) (hl : nm.length ≤ 15) :
+    (dirSlots r 2 ch).find? (isHit [stSubDirEntry] nm) = none := by
+  rw [List.find?_eq_none]
+  intro x hx hhit
+  unfold isHit at hhit
+  simp only [Bool.and_eq_true] at hhit
+  obtain ⟨hact, hm⟩ := hhit
+  unfold isFileMatch at hm
+  simp only [List.any_cons, List.any_nil, Bool.or_false, Bool.and_eq_true, beq_iff_eq] at hm
+  have hn : nibsOf stSubDirEntry nm = 0xD * 16 + nm.length := by
+    unfold nibsOf stSubDirEntry; omega
+  have he0 : x.1.getD 0 0 = 0xD * 16 + nm.length := by
+    have := hm.1; rw [hn] at this; exact this.symm
+  rcases hroot.slots x hx with h0 | ⟨hst, _⟩
+  · rw [h0] at he0; omega
+  · rw [he0] at hst; omega
+
+theorem attempt_err {α : Type} (m : M α) (d d' : Disk) (e : Err) (h : m d = (.error e, d')) (he : e ≠ .panic) :
+    M.attempt m d = (.ok none, d') := by
+  unfold M.attempt; rw [h]
+  cases e <;> first | rfl | exact absurd rfl he
+
+/-- in a volume without sub-directories `find_dir_key_block` of a path into the volume directory answers `PATH NOT FOUND` -/
+theorem findDirKeyBlock_flat {d : Disk} {bm cnt : Nat} {ch : List Nat} (c : RootCtx d bm cnt ch) (hroot : Root d.raw ch) (path nm : Bytes)
+    (hnodes : normalizePath (volName (hdrOf d.raw)) path = .ok [volName (hdrOf d.raw), nm]) (hnm : nm ≠ [])
+    (hnv : NotVol (volName (hdrOf d.raw)) path) : findDirKeyBlock path d = (.error .pathNotFound, d) := by
+  by_cases hl : nm.length ≤ 15
+  · exact findDirKeyBlock_root c path nm hnodes hnm hnv (no_dir_hit hroot nm hl)
+  · have hinv : isNameValid nm = false := by
+      cases hvv : isNameValid nm with
+      | false => rfl
+      | true => exact absurd (isNameValid_len nm hvv).2 hl
+    unfold findDirKeyBlock
+    simp only [bind_def]
+    rw [bind_ok _ _ d d _ (getVolHeader_root c)]
+    unfold NotVol at hnv
+    simp only [hnv, ↓reduceIte]
+    have hs := searchVolume_root c [stSubDirEntry] path nm hnodes hnm
+    unfold rootSearch at hs
+    rw [hinv] at hs
+    simp only [Bool.not_false, ↓reduceIte] at hs
+    rw [bind_ok _ _ d d _ (attempt_err _ d d _ hs (by decide))]
+    rfl
 
 /-! ## the access byte -/
 
